@@ -64,4 +64,66 @@ mod verif_kani_qdldl {
         let mut c = 0;
         while c < 4 { assert!(lp0[c] == lp1[c]); c += 1; }
     }
+
+    // C12 / C08: symmetric permutation of an upper-triangular matrix and its entry map (bounded: n = 3, all 8 off-diagonal
+    // patterns with full diagonal x all 6 permutations, enumerated concretely; symbolic non-NaN values)
+    fn perm3(k: usize) -> [usize; 3] {
+        match k { 0 => [0, 1, 2], 1 => [0, 2, 1], 2 => [1, 0, 2], 3 => [1, 2, 0], 4 => [2, 0, 1], _ => [2, 1, 0] }
+    }
+    #[kani::proof]
+    #[kani::unwind(50)]
+    fn permute_symmetric_entry_map_3x3() {
+        let mut pat = 0;
+        while pat < 8 {
+            // entries in column-major order: (0,0) | [(0,1)] (1,1) | [(0,2)] [(1,2)] (2,2)
+            let mut colptr = vec![0usize; 4];
+            let mut rowval: Vec<usize> = Vec::new();
+            let mut nzval: Vec<f64> = Vec::new();
+            let cells = [(0usize, 0usize, true), (0, 1, pat & 1 == 1), (1, 1, true), (0, 2, pat & 2 == 2), (1, 2, pat & 4 == 4), (2, 2, true)];
+            let mut c = 0;
+            while c < 6 {
+                let (r, col, on) = cells[c];
+                if on {
+                    let v: f64 = kani::any(); kani::assume(!v.is_nan());
+                    rowval.push(r); nzval.push(v);
+                    let mut cc = col + 1;
+                    while cc < 4 { colptr[cc] += 1; cc += 1; }
+                }
+                c += 1;
+            }
+            let a = CscMatrix::<f64> { m: 3, n: 3, colptr, rowval, nzval };
+            let nnz = a.nzval.len();
+            let mut pk = 0;
+            while pk < 6 {
+                let perm = perm3(pk);
+                let iperm = _invperm(&perm).unwrap();
+                let (p, map) = permute_symmetric(&a, &iperm);
+                assert!(p.m == 3 && p.n == 3 && p.colptr[0] == 0 && p.colptr[3] == nnz && map.len() == nnz);
+                assert!(p.colptr[0] <= p.colptr[1] && p.colptr[1] <= p.colptr[2] && p.colptr[2] <= p.colptr[3]);
+                // every entry k of A at (r,c) sits in P at (min(ip r, ip c), max(ip r, ip c)), slot map[k], same value
+                let mut col = 0;
+                while col < 3 {
+                    let mut k = a.colptr[col];
+                    while k < a.colptr[col + 1] {
+                        let r = a.rowval[k];
+                        let (pr, pc) = if iperm[r] <= iperm[col] { (iperm[r], iperm[col]) } else { (iperm[col], iperm[r]) };
+                        let slot = map[k];
+                        assert!(slot < nnz);
+                        assert!(p.colptr[pc] <= slot && slot < p.colptr[pc + 1]);
+                        assert!(p.rowval[slot] == pr && pr <= pc);
+                        assert!(p.nzval[slot] == a.nzval[k]);
+                        // the map is injective
+                        let mut k2 = 0;
+                        while k2 < k { assert!(map[k2] != slot); k2 += 1; }
+                        k += 1;
+                    }
+                    col += 1;
+                }
+                std::mem::forget(p); std::mem::forget(map); std::mem::forget(iperm);
+                pk += 1;
+            }
+            std::mem::forget(a);
+            pat += 1;
+        }
+    }
 }
